@@ -26,6 +26,7 @@ import (
 	"net/http"
 	"net/url"
 	"slices"
+	"strings"
 	"time"
 
 	"github.com/rs/zerolog"
@@ -179,6 +180,22 @@ func (e Endpoint) readResponse(resp *http.Response) ([]byte, error) {
 
 	return nil, errorchain.
 		NewWithMessagef(heimdall.ErrCommunication, "unexpected response code: %v", resp.StatusCode)
+}
+
+// RefersTo returns true, if the templates used for the url, or the header values refer to the given
+// object, like e.g. Outputs.
+func (e Endpoint) RefersTo(object string) bool {
+	if strings.Contains(e.URL, object) {
+		return true
+	}
+
+	for _, value := range e.Headers {
+		if strings.Contains(value, object) {
+			return true
+		}
+	}
+
+	return false
 }
 
 func (e Endpoint) Hash() []byte {
